@@ -198,7 +198,9 @@ func loopPart(a vlib.Args, res *vlib.Result) []string {
 		size  int
 		force bool
 		key   string
+		idx   int
 	}
+	nforce := 0
 	jobs := make(chan job)
 	var mu sync.Mutex
 	var kc []kcase
@@ -261,10 +263,21 @@ func loopPart(a vlib.Args, res *vlib.Result) []string {
 				if o.PViolation != "" {
 					res.Violate("reference loop: "+o.PViolation+" ["+kind+"]", replayFile{Loop: shrinkLoop(c)})
 				}
-				txt := CoqSeqCase(evs, o)
-				mu.Lock()
-				kc = append(kc, kcase{text: txt, size: len(txt), force: o.KMismatch >= 0, key: kind})
-				mu.Unlock()
+				// candidates for the Coq sample (chosen by job index, so that the sample is a function of the seed):
+				// every disagreement, the first long-pinned sequences, the first short valid and malformed ones
+				force := o.KMismatch >= 0
+				cand := force || (sh == ShapePinned && !j.mal && j.i < 97*8) || (!j.mal && j.i < 4*kValid) || (j.mal && j.i-nseq < 4*kMal)
+				if cand {
+					txt := CoqSeqCase(evs, o)
+					mu.Lock()
+					if !force || nforce < 200 {
+						kc = append(kc, kcase{text: txt, size: len(txt), force: force, key: kind, idx: j.i})
+						if force {
+							nforce++
+						}
+					}
+					mu.Unlock()
+				}
 				if o.KMismatch >= 0 {
 					res.Count("loop_mirror_mismatches", 1)
 					if n := atomic.AddInt32(&nMismatch, 1); n <= 3 {
@@ -288,10 +301,26 @@ func loopPart(a vlib.Args, res *vlib.Result) []string {
 	var panicTexts []string
 	pr := root.Fork()
 	tries := 0
-	for len(panicTexts) < npanic && tries < 400 {
+	// hand-made streams first: a converted version released twice (the second release must hit "invalid release
+	// request", i.e. the first one must have forgotten the conversion), a delta for a version never referenced,
+	// a reference sent twice while queued
+	lv := func(f ...int64) [][]int64 { return [][]int64{f} }
+	fixed := [][]Event{
+		{{Kind: EvRef, Vid: 0}, {Kind: EvRef, Vid: 1, Levels: lv(5, 6), Expired: true}, {Kind: EvDelta, Vid: 0, Added: []int64{5, 6}}, {Kind: EvRel, Vid: 0},
+			{Kind: EvRef, Vid: 2, Levels: lv(5, 6, 7)}, {Kind: EvDelta, Vid: 1, Added: []int64{7}}, {Kind: EvRel, Vid: 1, Levels: lv(5, 6)}, {Kind: EvRel, Vid: 1, Levels: lv(5, 6)}},
+		{{Kind: EvRef, Vid: 0}, {Kind: EvRef, Vid: 1, Levels: lv(5)}, {Kind: EvDelta, Vid: 7, Added: []int64{5}}},
+		{{Kind: EvRef, Vid: 0}, {Kind: EvRef, Vid: 1, Levels: lv(5)}, {Kind: EvDelta, Vid: 0, Added: []int64{5}}, {Kind: EvRef, Vid: 1, Levels: lv(5)}},
+	}
+	for len(panicTexts) < npanic+len(fixed) && tries < 400 {
 		tries++
-		evs, _ := GenValid(pr, []Shape{ShapeMix, ShapeReopen, ShapeAbandons}[pr.Intn(3)], pr.Range(3, 25), maxCached)
-		evs, what := GenMalformed(pr, evs)
+		var evs []Event
+		what := "hand-made"
+		if tries <= len(fixed) {
+			evs = fixed[tries-1]
+		} else {
+			evs, _ = GenValid(pr, []Shape{ShapeMix, ShapeReopen, ShapeAbandons}[pr.Intn(3)], pr.Range(3, 25), maxCached)
+			evs, what = GenMalformed(pr, evs)
+		}
 		at, pk, inTick := PredictPanic(evs, maxCached)
 		if at < 0 || inTick {
 			continue
@@ -315,6 +344,7 @@ func loopPart(a vlib.Args, res *vlib.Result) []string {
 		panicTexts = append(panicTexts, CoqPanicCase(evs, obs, at, pk))
 	}
 	// the Coq sample: every disagreement, the long pinned sequences first, then short ones up to the caps
+	sort.Slice(kc, func(i, j int) bool { return kc[i].idx < kc[j].idx })
 	var out []string
 	budget := 2600000
 	if !a.Thorough() {
@@ -531,7 +561,7 @@ func dbPart(a vlib.Args, res *vlib.Result) {
 	}
 	specs := []spec{{"pinned", 8, 40}, {"mix", 40, 260}, {"txn", 10, 0}, {"fault", 24, 0}, {"mfault", 12, 0}, {"txniter", 8, 0}, {"space", 6, 400}, {"crash", 8, 300}, {"recover", 4, 300}}
 	if a.Thorough() {
-		specs = []spec{{"pinned", 24, 600}, {"pinned", 24, 40}, {"mix", 300, 900}, {"txn", 60, 0}, {"fault", 200, 0}, {"mfault", 100, 0}, {"txniter", 60, 0}, {"space", 40, 1500}, {"crash", 60, 600}, {"recover", 40, 800}}
+		specs = []spec{{"pinned", 40, 600}, {"pinned", 40, 40}, {"mix", 800, 900}, {"txn", 150, 0}, {"fault", 500, 0}, {"mfault", 200, 0}, {"txniter", 150, 0}, {"space", 80, 1500}, {"crash", 150, 600}, {"recover", 80, 800}}
 	}
 	if strings.Contains(a.Extra, "search") && !a.Thorough() {
 		for i := range specs {
